@@ -426,6 +426,35 @@ func c10Run(c *core.Ctx) {
 	}
 	c.Count("nontrivial_inputs", cnt) // every byte string is distinct; see rule for non-triviality
 
+	// (1b) multi-byte chunks that the one-byte-per-branch alphabet cannot spell (byte order mark, UTF-8
+	// sequences, long or truncated escapes), each at the start, in the middle and at the end of every short
+	// byte string over the alphabet
+	chunks := []string{"\xEF\xBB\xBF", "\xEF\xBB", "\xC3\xA9", "\xE2\x80\xA8", "\xF0\x9F\x98\x80", "\"\\u{0000041}\"", "\"\\u{1234567", "'\\u{", "\"\\x4", "'\\u00", "\"\\u{110000}\"",
+		"#!", "/*", "\\\n", "0x", "0b2", "1e+", "1.e5", "..", "`\\`", "`\\\\`", "'\\", "\"\\\n\"", "//\r\n", "\xFF", "\x80"}
+	short := [][]byte{{}}
+	for _, b := range A {
+		short = append(short, []byte{b})
+	}
+	for _, ch := range chunks {
+		for _, x := range short {
+			for _, y := range short {
+				for _, z := range [][]byte{{}, {'a'}, {'\n'}} {
+					if !c.Next() || c.Tick() {
+						continue
+					}
+					in := string(x) + ch + string(y) + string(z)
+					c.Cur(in)
+					c.Inc("inputs")
+					c.Inc("chunk_inputs")
+					if k, d := lexCheck(lb, in); k != "" && c.ShrinkOK("chunk"+k) {
+						pl, _ := json.Marshal(c10Payload{Src: []byte(in)})
+						c.Violate(core.Violation{Kind: k, Config: "chunk", Case: fmt.Sprintf("%q", in), Detail: d, Payload: pl, Size: len(in)})
+					}
+				}
+			}
+		}
+	}
+
 	// (2) fragment sequences x separators vs R-tok
 	F := c10Fragments
 	maxLen, seps := 3, c10Seps
